@@ -168,6 +168,7 @@ TConnectCall ==
 \* the kernel reported the outcome of the attempt in progress
 TGetSockOpt ==
   /\ IsEvent("getsockopt") /\ conn.id # 0 /\ conn.inprog /\ Ev.fd = conn.cur
+  /\ (Has("premature") => ~Ev.premature)      \* only once the kernel has reported the attempt as finished (SO_ERROR reads 0 before that)
   /\ conn' = [conn EXCEPT !.result = (IF Ev.err = 0 THEN "connected" ELSE "failed"), !.inprog = FALSE]
   /\ Keep(<<req, rdr, wtr, rpos, wpos, rxq, txq, axq, clock, incb>>)
 \* closing the socket of an attempt: it failed, or it was abandoned because its timeout expired, or the request is being cancelled
